@@ -820,6 +820,12 @@ class ModuleVistor(NodeVisitor):
                 # Note: We skip type and aliasing analysis for this case,
                 #       but we do record line numbers.
                 self._handleAssignment(elem, None, None, lineno)
+                # The name is bound to a value we do not look at: the value of an 
+                # earlier assignment (and the type inferred from it) is not its value anymore.
+                attr = self.builder.currentAttr
+                name = elem.id if isinstance(elem, ast.Name) else elem.attr if isinstance(elem, ast.Attribute) else None
+                if isinstance(attr, model.Attribute) and attr.name == name:
+                    attr.value = None
 
     def visit_AnnAssign(self, node: ast.AnnAssign) -> None:
         annotation = unstring_annotation(node.annotation, self.builder.current)
